@@ -458,7 +458,7 @@ class C20(Suite):
             for t in dict.fromkeys(tails):
                 yield {"op": "rt", "v": v, "tail": hx(t)}
         # --- rt: random
-        for i in range(6000 if quick else 80000):
+        for i in range(6000 if quick else 60000):
             d = rng.choice([0, 1, 1, 2, 2, 3, 4, 6 if quick else 8])
             v = gen_val(rng, d, big=rng.random() < 0.04, bad=rng.random() < 0.05)
             tail = rng.choice(TAILS) if rng.random() < 0.7 else mutate(rng, tnetstrings.dump(to_py(gen_leaf(rng))))
@@ -470,7 +470,7 @@ class C20(Suite):
                 v = ["L", [v]] if j % 2 else ["D", [[[0x6B], v]]]
             yield {"op": "rt", "v": v, "tail": "-"}
         # --- stream: structured messages
-        nstream = 400 if quick else 2500
+        nstream = 400 if quick else 1800
         for i in range(nstream):
             vals = []
             for _ in range(rng.choice([1, 1, 2, 2, 3])):
@@ -497,7 +497,7 @@ class C20(Suite):
                 b = bytes(tup)
                 yield {"op": "stream", "chunks": [b.hex()] if b else [], "vals": None, "tail": "-"}
         # --- malformed: mutated dumps, raw parse and raw stream
-        for i in range(10000 if quick else 100000):
+        for i in range(10000 if quick else 80000):
             v = gen_val(rng, rng.choice([0, 0, 1, 2, 3]))
             if not in_scope(v):
                 continue
@@ -505,7 +505,7 @@ class C20(Suite):
             if b"^" in data and noncanonical_float(data):
                 continue
             yield {"op": "parse", "data": hx(data)}
-        for i in range(1200 if quick else 8000):
+        for i in range(1200 if quick else 6000):
             vals = [gen_leaf(rng) for _ in range(rng.choice([1, 2, 3]))]
             vals = [ptrunc(v, rng.choice([0, 2, 10, 30])) if v[0] in ("y", "t") else v for v in vals]
             data = b"".join(tnetstrings.dump(to_py(v)) for v in vals)
